@@ -348,6 +348,24 @@ def _mask(x: Any) -> Any:
     return x
 
 
+_REPR_MARKERS = ("SigmaRule(", "SigmaCorrelationRule(", "ProcessingItem(", "Transformation(", "Condition(",
+                 "ProcessingPipeline(", "SigmaDetections(", "SigmaDetectionItem(")
+
+
+def _diffs_inside_reprs(a: Any, b: Any) -> bool:
+    """every differing string leaf differs only after the start of an embedded dataclass repr"""
+    if isinstance(a, str) and isinstance(b, str):
+        if a == b:
+            return True
+        i = next((k for k, (x, y) in enumerate(zip(a, b)) if x != y), min(len(a), len(b)))
+        return any(0 <= a.find(m) < i for m in _REPR_MARKERS)
+    if isinstance(a, list) and isinstance(b, list) and len(a) == len(b):
+        return all(_diffs_inside_reprs(x, y) for x, y in zip(a, b))
+    if isinstance(a, dict) and isinstance(b, dict) and set(a) == set(b):
+        return all(_diffs_inside_reprs(a[k], b[k]) for k in a)
+    return a == b
+
+
 def tags(sc: dict, violation: dict) -> set[str]:
     t: set[str] = set()
     if violation.get("oracle") == "all-process-starts-agree":
@@ -359,7 +377,7 @@ def tags(sc: dict, violation: dict) -> set[str]:
                 only_messages = False  # queries / finalised output differ: never quarantined
             if k == "issues":
                 only_messages = False
-        if only_messages and _mask(got) == _mask(want):
+        if only_messages and _mask(got) == _mask(want) and _diffs_inside_reprs(got, want):
             t.add("error-message-embeds-object-repr")
     if "forced_prefix_collision" in sc.get("kinds", []) and any(c.get("forced_draws") for c in violation.get("configs", [])):
         names = [k for d in sc["documents"] if "detection" in d for k in d["detection"]]
